@@ -61,7 +61,7 @@ def apply_img(b, op, mask=False):
         ks = op["ks"]
         return b.avg_pool(ks if isinstance(ks, int) else tuple(ks))
     if k == "conv":
-        return b.conv(torch.tensor(op["kernel"], dtype=torch.float64))
+        return b.conv(torch.tensor(op["kernel"] if "kernel" in op else op["kernel_nd"], dtype=torch.float64))
     if k == "sample":
         return b.sample(mk(op["grid"]), padding="zeros")
     raise KeyError(k)
@@ -80,12 +80,9 @@ def rand_op(rng, g, D, corr, nimg=1):
     n = [int(v) for v in g.size()]
     frac = any(abs(float(v) - round(float(v))) > 1e-6 for v in g._size)
     kinds = ["resize", "down", "down", "up", "resample", "crop", "pad", "center_crop", "center_pad", "narrow", "pool", "conv", "crop", "pad"]
-    if D == 3:
-        kinds.append("roi")
+    kinds += ["roi", "conv_nd"]
     if not corr:
         kinds += ["pyr", "sample"]
-    elif nimg > 1:
-        kinds = [x for x in kinds if x != "narrow"]   # known defect: narrow gives every image the grid of image 0 (probed by the oracle)
     k = rng.choice(kinds)
     ac = rng.choice([None, True, False])
     if k == "resize":
@@ -108,7 +105,7 @@ def rand_op(rng, g, D, corr, nimg=1):
             sp = [rng.choice([0.5, 0.75, 1.0, 1.25, 1.5, 2.0]) for _ in range(D)]
             ext = [float(a) for a in g.extent()]
             new = [math.ceil(e / s - 1e-9) for e, s in zip(ext, sp)]
-            if new != n and min(new) >= 2 and max(new) <= 9 and all(abs(e / s - round(e / s)) > 1e-3 or abs(e / s - round(e / s)) < 1e-9 for e, s in zip(ext, sp)):
+            if (new != n or rng.random() < .5) and sp != [float(v) for v in g.spacing()] and min(new) >= 2 and max(new) <= 9 and all(abs(e / s - round(e / s)) > 1e-3 or abs(e / s - round(e / s)) < 1e-9 for e, s in zip(ext, sp)):
                 return {"op": k, "spacing": sp}
         return {"op": "resize", "size": [rng.randint(2, 7) for _ in range(D)], "ac": ac}
     if k in ("crop", "pad"):
@@ -142,6 +139,12 @@ def rand_op(rng, g, D, corr, nimg=1):
         return {"op": k, "ks": kk}
     if k == "conv":
         return {"op": k, "kernel": rng.choice([[0.25, 0.5, 0.25], [0.125, 0.75, 0.125], [0.0625, 0.25, 0.375, 0.25, 0.0625]])}
+    if k == "conv_nd":
+        def taps(dims):
+            if not dims:
+                return rng.randint(-4, 4) / 8
+            return [taps(dims[1:]) for _ in range(dims[0])]
+        return {"op": "conv", "kernel_nd": taps([rng.choice([1, 3]) for _ in range(D)])}
     if k == "sample":
         gd = rand_grid(rng, D)
         gd["center"] = [float(v) + rng.choice([-0.5, 0.0, 0.25]) for v in g.center()]
